@@ -129,6 +129,18 @@ def impl_call(c, outs, full=False):
     return {"ok": o}, res
 
 
+def _text_noise_installed():
+    try:
+        from harness import textnoise
+        return bool(textnoise.installed)
+    except Exception:
+        return False
+
+
+def _no_pos(o):
+    return {k: v for k, v in o.items() if k != "pos"} if isinstance(o, dict) and "err" in o else o
+
+
 def impl_outcome(text, gs, outs):
     c, e = C16.watched(lambda: C16.parse(text, gs))
     if e is not None:
@@ -614,8 +626,13 @@ def run(seed: int, n: int, driver: str = DEFAULT_DRIVER, thorough: bool = False)
     if driver:
         answers = C16.safe_driver(driver, [model_req(c["text"], c["gs"], [dec(o) for o in c["outputs"]]) for c, _ in acc.reqs])
         d = acc.corr["output_list"]
+        noisy = _text_noise_installed()
         for (case, impl), model in zip(acc.reqs, answers):
             d["cases"] += 1
+            if noisy:
+                # harness/textnoise.py decorates the text the library parses with comments / blank lines, which moves the
+                # position of a syntax error; positions are C02's / C16's business (their checks run without the noise)
+                model, impl = _no_pos(model), _no_pos(impl)
             if model != impl:
                 d["disagreements"].append({"case": case, "model": model, "impl": impl})
     for d in acc.corr.values():
